@@ -79,8 +79,16 @@ def gen_history(rng, depth, with_expr=True):
             tree = rename(tree)
             lhs = rng.choice([None, 'c', 'a', 'b', 'x', 'y'])
             lhs = R(lhs) if lhs else lhs
-            ops.append(['E', (lhs + '=' if lhs else '') + C02.pr(tree, rng), tree, lhs])
-    return {'n': n, 'ops': ops}
+            ops.append(['E', (lhs + '=' if lhs else '') + C02.pr_lead(tree, rng), tree, lhs])
+    case = {'n': n, 'ops': ops}
+    # a third of the histories run on a track that has had an earlier life in the library: it comes out of a resampling of a track that carried features
+    # (the resampled track lists none), and / or it is replaced mid-history by its copy, its full extraction, or the concatenation of its two halves
+    if rng.random() < 0.35:
+        case['pre'] = rng.choice(['rs', 'rs', 'rt'])
+    if rng.random() < 0.3 and ops:
+        for _ in range(rng.randint(1, 2)):
+            ops.insert(rng.randrange(len(ops) + 1), ['P', rng.choice(['copy', 'extract', 'add', 'slice'])])
+    return case
 
 
 def observe(tr):
@@ -95,6 +103,17 @@ def run_impl(case):
     from tracklib.core.utils import addListToAF
     n = case['n']
     tr = Track([Obs(ENUCoords(float(i), float(10 + i), 0.0), ObsTime.readUnixTime(1000 + 10 * i)) for i in range(n)])
+    if case.get('pre'):
+        m = n + 1 if case['pre'] == 'rs' else n + 2
+        tr = Track([Obs(ENUCoords(float(3 * i), float(4 * i), 0.0), ObsTime.readUnixTime(1000 + 10 * i)) for i in range(m)])
+        tr.createAnalyticalFeature('p', 1000.0)
+        tr.createAnalyticalFeature('q', [2000.0 + i for i in range(m)])
+        tr.resample(npts=n if case['pre'] == 'rs' else n + 1, mode=1 if case['pre'] == 'rs' else 2)
+        if tr.size() != n:
+            return {'exc': 'resampling gave %d observations for %d' % (tr.size(), n)}
+        for i in range(n):            # the canonical positions and instants of the histories
+            tr.getObs(i).position = ENUCoords(float(i), float(10 + i), 0.0)
+            tr.getObs(i).timestamp = ObsTime.readUnixTime(1000 + 10 * i)
     steps = []
     for op in case['ops']:
         k, nm = op[0], op[1]
@@ -114,6 +133,16 @@ def run_impl(case):
                 tr[nm] = mk(op[2])
             elif k == 'O':
                 tr[nm, op[2]] = float(op[3])
+            elif k == 'P':
+                if nm == 'copy':
+                    tr = tr.copy()
+                elif nm == 'extract':
+                    tr = tr.extract(0, n - 1)
+                elif nm == 'slice':
+                    tr = tr[0:n]
+                else:
+                    h = n // 2
+                    tr = (tr.extract(0, h - 1) + tr.extract(h, n - 1)) if 0 < h < n else tr.copy()         # (a sum of tracks that list different features lists none, by design: not used)
             elif k == 'F':
                 vals = list(op[2])
                 def f(track, i, vals=vals):
@@ -180,6 +209,10 @@ def coq_case(case, obs):
     for op, st in zip(case['ops'], steps):
         if st.get('stop'):
             break
+        if op[0] == 'P':
+            if st['err'] is not None:
+                return None        # the oracle reports it
+            continue               # the identity for the model: the next call is compared on the same state
         e = 'None' if st['err'] is None else 'Some %s' % ERRC.get(st['err'], 'Other')
         items.append('(%s, %s, %s, %s, %s, %s, %s)' % (op_lit(op), e, coq_list('s_ "%s"' % k for k in st['names']), coq_list(_col(c) for c in st['cols']),
                                                    _col(st['x']), _col(st['y']), _col(st['z'])))
@@ -222,6 +255,9 @@ def oracle(case, obs):
                 co[nm][op[2]] = float(op[3])
             elif nm in spec:
                 spec[nm] = list(spec[nm]); spec[nm][op[2]] = float(op[3])
+        elif k == 'P':
+            if st['err'] is not None:
+                return 'step %d: %s of the track raised %s' % (idx, nm, st['err'])
         elif k == 'F':
             if nm not in virt:
                 spec[nm] = [nan if v is None else float(v) for v in op[2]]
@@ -263,7 +299,9 @@ def oracle(case, obs):
 def shrink(case):
     ops = case['ops']
     for i in range(len(ops)):
-        yield {'n': case['n'], 'ops': ops[:i] + ops[i + 1:]}
+        yield dict(case, ops=ops[:i] + ops[i + 1:])
+    if case.get('pre'):
+        yield {k: v for k, v in case.items() if k != 'pre'}
 
 
 CHECK = '''Definition mk (n : nat) : track := {| xs := map vnat (seq 0 n); ys := map vnat (seq 10 n); zs := repeat (Some 0) n; ts := map (fun i => vnat (1000 + 10 * i)) (seq 0 n); dico := []; feats := repeat [] n |}.
